@@ -1,7 +1,7 @@
 """C20 -- allocation failure always ends in the controlled abort (failing allocator in every harness)."""
 import os
 import re
-from vplib.core import Group, REPO
+from vplib.core import Group, with_canaries, REPO
 
 LEVEL = "proof"
 META = {"explanation": "every allocation wrapper / allocating routine is verified with an allocator that may fail at every call (cbmc --malloc-may-fail --malloc-fail-null): it either does not return (m4ri_die) or returns complete objects; all other allocation sites are shown syntactically to go through those wrappers, so a failure at any position i of any scenario is covered without enumerating i",
@@ -106,4 +106,4 @@ def groups(tier, seed):
     g("PLE_TABLE", "ple_table_init", base + ["ple_russian", "mzp", "brilliantrussian", "triangular", "triangular_russian", "strassen", "ple", "echelonform", "io", "djb"], bounded=True, note="k<=3")
     for sc, fn in ((1, "mzd_transpose(NULL,.)"), (2, "mzd_copy(NULL,.)"), (3, "mzd_apply_p_right"), (4, "mzd_submatrix(NULL,..)"), (5, "mzd_concat(NULL,..)")):
         g("SCENARIO", fn, base + ["mzp"], extra={"SCEN": sc}, unwind=72, bounded=True, note="2x70 operand", timeout=900)
-    return gs
+    return with_canaries(gs)
